@@ -36,6 +36,10 @@ CLAIMED = {
  'C15': dict(text="Lean theorem accepted_safe at full strength: if the model of the front end's definedness checker + reachability accepts a function then, for EVERY oracle of branch outcomes and trip counts (zero-trip loops, untaken one-armed ifs) and every fuel, neither the first-call analysis nor the run reads an unbound name or falls off the end; plus the rejects-leaks theorems (names introduced only in a loop/branch, loop targets). Proved over a skeleton language in which values are irrelevant, by the invariant 'marked defined => bound at run time'. Tie: every skeleton program up to a size bound (exhaustive) + random ones rendered as FPy source: the real @fpy accept/reject decision and error kind vs the model, every accepted program run on the real interpreter and on CPython on inputs steering each branch/trip count.",
              note=TB + "; each `if` site gets one steering argument per run (the theorem quantifies over all oracles).",
              tech="Lean 4 proof (invariant by induction over the big-step semantics) + exhaustive small-program correspondence + run-time Spec oracle", ref="5/C15"),
+
+ 'C14': dict(text="Lean theorems (21) over a faithful model of AbstractFormat with concretisation gamma written from the class docstring: add/sub/union/abs/<= soundness at full strength (for all well-formed formats and all members incl. -0, infinities, NaN), member <-> gamma, multiplication sound up to the recorded -0 flag (F29), rounding-identity soundness for MPFloat targets; counterexample theorems document the repaired defects on the legacy definitions. Tie: all pairs of a grid of abstract formats through the real operators vs the model, an independent rational membership oracle on enumerated members, and program-level traced executions under pinned contexts (every run-time value must be a member of the inferred format; elim_round end to end).",
+             note=TB + "; the program-level fixpoint (_join_bounds, widening, branch refinement) is monitored on traced executions, not proved.",
+             tech="Lean 4 proof (abstract arithmetic) + grid correspondence + membership Spec oracle + traced executions", ref="5/C14"),
 }
 NA_REASON = "check not built yet (work in progress; see DESIGN.md section 8 build order)"
 
